@@ -85,12 +85,12 @@ def make_frame(rng, inp, labels=None, label_kind=None, with_other=True):
         labels, label_kind = gen.gen_labels(rng, n, label_kind)
     nf = NestedFrame({"x": list(range(n)), "y": [rng.choice(["p", "q", "r"]) for _ in range(n)],
                       "w": pd.array([rng.choice([1, 2, 2, 3, None]) for _ in range(n)], dtype=pd.ArrowDtype(pa.int64()))},
-                     index=labels)
-    nf["n"] = pd.Series(inp["arr"], index=labels, name="n")
+                     index=gen.as_index(labels, label_kind))
+    nf["n"] = pd.Series(inp["arr"], index=nf.index, name="n")
     if with_other:
         other_schema = [("q", "int64")]
         other_rows = gen.gen_rows(rng, other_schema, n, max_len=2)
-        nf["other"] = pd.Series(NEA(pa.array(other_rows, type=gen.struct_type(other_schema))), index=labels, name="other")
+        nf["other"] = pd.Series(NEA(pa.array(other_rows, type=gen.struct_type(other_schema))), index=nf.index, name="other")
     return nf, labels, label_kind
 
 
